@@ -69,14 +69,33 @@ class CoqFailure(Exception):
 _built = {}
 
 
-def coq_make(timeout=COQ_TIMEOUT):
-    """full .vo build of the development (no -vos); cached per process"""
-    if "make" in _built: return _built["make"]
-    if not os.path.exists(os.path.join(COQDIR, "Makefile")):
-        rc, out = sh("coq_makefile -f _CoqProject -o Makefile", cwd=COQDIR, timeout=120)
+def write_coqproject():
+    """_CoqProject lists every Base/Model/Proofs file (Properties/ are compiled by the checks
+    themselves so that Print Assumptions output is captured on every run)"""
+    files = []
+    for sub in ("Base", "Model", "Proofs"):
+        d = os.path.join(COQDIR, sub)
+        if os.path.isdir(d):
+            files += sorted(os.path.join(sub, f) for f in os.listdir(d) if f.endswith(".v") and not f.startswith("."))
+    txt = "-Q . Onsager\n" + "\n".join(files) + "\n"
+    p = os.path.join(COQDIR, "_CoqProject")
+    old = open(p).read() if os.path.exists(p) else ""
+    if old != txt or not os.path.exists(os.path.join(COQDIR, "Makefile")):
+        with open(p, "w") as f: f.write(txt)
+        return True
+    return False
+
+
+def coq_make(timeout=COQ_TIMEOUT, strict=False):
+    """full .vo build of the development (no -vos); cached per process.  Non-strict: make -k, so that
+    a file broken elsewhere does not stop an unrelated check (whose Properties file is the judge)."""
+    if "make" in _built and not strict: return _built["make"]
+    lock = "flock %s/.buildlock " % COQDIR
+    if write_coqproject():
+        rc, out = sh(lock + "coq_makefile -f _CoqProject -o Makefile", cwd=COQDIR, timeout=120)
         if rc != 0:
             _built["make"] = (False, out); return _built["make"]
-    rc, out = sh("flock %s/.buildlock make -j%d 2>&1" % (COQDIR, min(16, os.cpu_count() or 4)), cwd=COQDIR, timeout=timeout)
+    rc, out = sh(lock + "make %s -j%d 2>&1" % ("" if strict else "-k", min(16, os.cpu_count() or 4)), cwd=COQDIR, timeout=timeout)
     _built["make"] = (rc == 0, out)
     return _built["make"]
 
@@ -204,11 +223,7 @@ class Check:
         else:
             self.obligations.append(("no-escape-hatches", True, []))
         ok, out = coq_make()
-        if not ok:
-            tail = "\n".join(out.strip().split("\n")[-25:])
-            self.obligations.append(("make", False, [tail]))
-            self.broken_proof = "coq build failed:\n" + tail
-            return False
+        self.make_ok = ok
         cmd = "coqc -Q . Onsager %s" % propfile
         self.checker_cmds.append("cd coq && make && " + cmd)
         src = open(os.path.join(COQDIR, propfile)).read()
@@ -247,9 +262,7 @@ class Check:
         path = os.path.join(d, fn + ".v")
         with open(path, "w") as f:
             f.write(imports + "\n" + body + "\n")
-        ok, out = coq_make()
-        if not ok:
-            raise CoqFailure("development does not build:\n" + "\n".join(out.strip().split("\n")[-20:]))
+        coq_make()
         cmd = "ulimit -s unlimited 2>/dev/null; coqc -Q %s Onsager -Q %s Cases %s" % (COQDIR, d, path)
         try:
             rc, out = sh(["bash", "-c", cmd], cwd=d, timeout=timeout)
